@@ -4,6 +4,7 @@ import Driver.Conc
 import Driver.Feeder
 import Driver.Dist
 import Driver.Config
+import Driver.Api
 open Std
 namespace Drv
 
@@ -43,6 +44,14 @@ def handle (st : St) (n : Nat) (line : String) : Result := Id.run do
   | "H" :: _ => return handleH st n toks
   | "FD" :: _ => return handleFD st n toks
   | "DS" :: _ => return handleDS st n toks
+  | "A" :: _ => return handleA st n toks
+  | "ISO" :: rest =>
+    let m := (field rest "merged").getD "?"
+    let a := (field rest "alone").getD "!"
+    if m == a then return { st := { (st.bump "iso.logs") with nOK := st.nOK + 1 }, out := [s!"OK {n}"] }
+    else
+      let f := fail { st with nDiv := st.nDiv + 1 } n "C12" s!"a log's outcomes/state differ between the interleaved run and its history alone: merged={m.take 150} alone={a.take 150}"
+      return { st := f.st, out := [s!"DIVERGE {n} ISO field=out model={a.take 100} impl={m.take 100}"] ++ f.out }
   | "CF" :: _ => return handleCF st n toks
   | "CFM" :: _ => return handleCFM st n toks
   | "CA" :: _ => return handleCA st n toks
